@@ -110,9 +110,11 @@ theorem structVerifier_consistent (sy : Symbols) (o : List Nat) (T S : SizeStore
                     · rename_i isz ial hsa
                       split at hr
                       · simp at hr
-                      · rcases List.mem_cons.1 hf with rfl | hf
-                        · simp only [fieldSA, hc] at hsa; exact ⟨_, hsa⟩
-                        · exact ihg _ _ _ _ hr f hf c hc
+                      · split at hr
+                        · simp at hr
+                        · rcases List.mem_cons.1 hf with rfl | hf
+                          · simp only [fieldSA, hc] at hsa; exact ⟨_, hsa⟩
+                          · exact ihg _ _ _ _ hr f hf c hc
               exact aux _ _ _ _ _ hv f hf c hc
             obtain ⟨v, hv'⟩ := hsome
             rw [hv', hTS c v hv']
